@@ -51,6 +51,15 @@ type vPollRun struct {
 	rpos int
 	out  []byte
 	hups int32
+	// hang-up goroutines announced by the poller (vpSpawnHup) that have not finished (vpHupEnd) yet
+	hupPending int32
+}
+
+// waitHups: the hang-up callbacks run on a goroutine of their own; wait for it instead of guessing a delay
+func (r *vPollRun) waitHups() {
+	for i := 0; i < 25000 && atomic.LoadInt32(&r.hupPending) > 0; i++ {
+		time.Sleep(200 * time.Microsecond)
+	}
 }
 
 func (r *vPollRun) ev(e, k string, n, m int, err string) {
@@ -120,7 +129,8 @@ func (r *vPollRun) pump() {
 			return
 		}
 		if n <= 0 {
-			// give the asynchronous hang-up goroutine a moment, then look once more
+			// let the asynchronous hang-up goroutine finish, then look once more
+			r.waitHups()
 			time.Sleep(300 * time.Microsecond)
 			n, _ = EpollWait(r.p.fd, r.p.events, 0)
 			if n <= 0 {
@@ -168,6 +178,16 @@ func vRunPollVector(v *vPollVector) (out []vPollEvent) {
 	}
 	p.Reset(128, barriercap)
 	r.p = p
+	verifHook = func(pt int32, obj unsafe.Pointer, a, b int64) {
+		if obj == unsafe.Pointer(p) {
+			if pt == vpSpawnHup {
+				atomic.AddInt32(&r.hupPending, 1)
+			} else if pt == vpHupEnd {
+				atomic.AddInt32(&r.hupPending, -1)
+			}
+		}
+	}
+	defer func() { verifHook = nil }()
 	defer func() {
 		p.Close()
 		for i := 0; i < 10; i++ {
@@ -295,6 +315,7 @@ func vRunPollVector(v *vPollVector) (out []vPollEvent) {
 		if !p.Handler(evs) {
 			p.opcache.free()
 		}
+		r.waitHups()
 		time.Sleep(300 * time.Microsecond)
 	}
 	r.pump()
@@ -309,6 +330,7 @@ func vRunPollVector(v *vPollVector) (out []vPollEvent) {
 	if peerOpen {
 		got = r.peerInq()
 	}
+	r.waitHups()
 	time.Sleep(500 * time.Microsecond)
 	r.ev("Final", "", got, int(atomic.LoadInt32(&r.hups)), "")
 	op.Control(PollDetach)
